@@ -173,7 +173,9 @@ func ruleC14(c *Check) {
 			if f2 := c.slashFuncs(); len(f2) > 0 && f2[0] == f {
 				// slash: either still sufficient, or disabled (handled by C04.5 / C14.3)
 				if !ok {
-					ok = pp.Facts.Has(need.Not()) && avail.IsAt("#false")
+					// disabled on this path, or the path is the merged "unavailable ∨ sufficient" edge
+					ok = (pp.Facts.Has(need.Not()) && avail.IsAt("#false")) ||
+						pp.Facts.Holds(mk("&&", field("ServiceBinding", "Available", L), mk("!", need.T)), false)
 				}
 				what = "slash"
 			}
